@@ -525,7 +525,7 @@ class Tensor(Funsor, metaclass=TensorMeta):
             return x
         subs = []
         for name, domain in x.inputs.items():
-            if isinstance(domain.dtype, int):
+            if isinstance(domain.dtype, int) and not domain.shape:
                 subs.append((name, self.new_arange(name, domain.dtype)))
         subs = tuple(subs)
         return substitute(x, subs)
